@@ -78,6 +78,7 @@ type VC struct {
 	opq       map[string]*opqInfo
 	hoisted   map[string]Term
 	namedInv  bool
+	mapCardOn bool
 	splitInfo string
 	entryEnv  *Env
 	sums      map[string][]*sumInst
@@ -279,6 +280,9 @@ func (vc *VC) baseHeap(b *base, key string) Term {
 			vc.cmd(fmt.Sprintf("(declare-const %s %s)", name, srt))
 			if b.alloc != "" {
 				vc.heapWF(Term{name, srt}, key, b.alloc)
+			}
+			if vc.mapCardOn && strings.HasPrefix(key, "MH:") {
+				vc.mapCard(Term{name, srt}, key, vc.baseHeap(b, "ML"), "")
 			}
 		}
 		return Term{name, srt}
@@ -560,6 +564,26 @@ func (vc *VC) heapWF(h Term, key string, al string) {
 		return
 	}
 	vc.cmd(fmt.Sprintf("(assert (forall ((o Int) (j Int)) (! (%s %s %s) :pattern (%s))))", wf, inner, al, inner))
+}
+
+// mapCard (contract flag `mapcard`): a map's length is the number of its keys.  The model keeps the
+// length (ML) and the key set (MH) as separate heap components, updated consistently by insert and
+// delete; wherever a fresh key set is introduced (entry state, loop head, call havoc) this states
+// the two instances of "length = cardinality" that `len(m) == 0` / `len(m) == 1` tests rely on:
+// a present key means length >= 1, two different present keys mean length >= 2.  mh is the key-set
+// component (all objects) or, with obj non-empty, one object's row of it.
+func (vc *VC) mapCard(mh Term, key string, ml Term, obj string) {
+	if !vc.mapCardOn || !strings.HasPrefix(key, "MH:") {
+		return
+	}
+	ks := key[3:]
+	if obj != "" {
+		vc.cmd(fmt.Sprintf("(assert (forall ((k %s)) (! (=> (select %s k) (>= (select %s %s) 1)) :pattern ((select %s k)))))", ks, mh.S, ml.S, obj, mh.S))
+		vc.cmd(fmt.Sprintf("(assert (forall ((k1 %s) (k2 %s)) (! (=> (and (select %s k1) (select %s k2) (not (= k1 k2))) (>= (select %s %s) 2)) :pattern ((select %s k1) (select %s k2)))))", ks, ks, mh.S, mh.S, ml.S, obj, mh.S, mh.S))
+		return
+	}
+	vc.cmd(fmt.Sprintf("(assert (forall ((o Int) (k %s)) (! (=> (select (select %s o) k) (>= (select %s o) 1)) :pattern ((select (select %s o) k)))))", ks, mh.S, ml.S, mh.S))
+	vc.cmd(fmt.Sprintf("(assert (forall ((o Int) (k1 %s) (k2 %s)) (! (=> (and (select (select %s o) k1) (select (select %s o) k2) (not (= k1 k2))) (>= (select %s o) 2)) :pattern ((select (select %s o) k1) (select (select %s o) k2)))))", ks, ks, mh.S, mh.S, ml.S, mh.S, mh.S))
 }
 
 // rowWF: heapWF for one havocked object (a row of a heap component): every reference stored in it
